@@ -100,6 +100,12 @@ pub fn run(ctx: &mut Ctx) {
             // reference applies to it
             let reloaded = r.chance(1, 3);
             let e = if reloaded { crate::mon::c08::roundtrip(&e, r.chance(1, 2)).expect("round trip of own buffer") } else { e };
+            let mut e = e;
+            if r.chance(1, 4) {
+                // a rejected load must leave the engine as it was
+                let junk: [&[u8]; 4] = [b"", b"\xd1\xd9\x3a\xaf\x07", b"garbage", b"\xd1\xd9\x3a\xaf\x00\xdc\x00\x13\x91"];
+                let _ = e.deserialize(junk[r.below(4)]);
+            }
             let parsed: Vec<&CosRule> = rules.iter().filter(|x| parse_filter(&x.line, true, ParseOptions::default()).is_ok()).collect();
             let ghf: Vec<_> = gh.iter().filter_map(|l| parse_network(l, ParseOptions::default())).collect();
             let mut rm = RegexManager::default();
